@@ -131,3 +131,53 @@ def own_loopback(mid: str, other: str, rx: str, n_before: int, rx_is_own: bool) 
     finally:
         nt.random, nt.time, nt.message_reader = saved
     return orc.result()
+
+
+def own_loopback_after_traffic(maxlen: int, n_before: int, k_between: int) -> str:
+    """
+    The id memory holds `maxlen` ids (the real one holds 200). n_before foreign ids are already known, the node sends its own
+    message, k_between NEW foreign messages arrive (fewer than the memory holds), then the own message is looped back: it is among
+    the last `maxlen` ids the node saw or sent, so it must still be ignored - whatever the fill level of the memory.
+    pre: 2 <= maxlen <= 4
+    pre: 0 <= n_before <= maxlen
+    pre: 0 <= k_between < maxlen
+    post: __return__ == 'ok'
+    """
+    orc = Oracle()
+    saved = nt.random, nt.time, nt.message_reader
+    try:
+        nt.random = types.SimpleNamespace(randint=lambda a, b: a, randrange=lambda a, b=None: a)
+        nt.time = types.SimpleNamespace(time=lambda: 1000.0, sleep=lambda s: None)
+        t = nt.NetworkingThread.__new__(nt.NetworkingThread)
+        t._logger = _nolog()
+        cap = 2 if maxlen == 2 else (3 if maxlen == 3 else 4)      # concrete: deque is implemented in C
+        t._known_message_ids = collections.deque(maxlen=cap)
+        t._quit_send_event = threading.Event()
+        t._send_queue = _RecQueue(t, 'own')
+        t._wsd = _Wsd()
+        current = ['?']
+        nt.message_reader = types.SimpleNamespace(read_received_message=lambda data, validate=True: _msg(current[0]))
+
+        def receive(mid):
+            current[0] = mid
+            t._quit_recv_event = _OneShot(1)
+            t._read_queue = queue.Queue()
+            t._read_queue.put((('10.0.0.1', 3702), b'<datagram/>'))
+            t._run_q_read()
+        i = 0
+        while i < n_before:
+            receive('old%d' % i)
+            i += 1
+        t.add_outbound_message(_msg('own'), '239.255.255.250', 3702, nt.MULTICAST_REPEAT_PARAMS)
+        j = 0
+        while j < k_between:
+            receive('new%d' % j)
+            j += 1
+        del t._wsd.handled[:]
+        receive('own')
+        orc.check(t._wsd.handled == [], 'own_message_dispatched_after_other_traffic')
+    except Exception as ex:  # noqa: BLE001
+        return exc_result(orc, ex, 'own_loopback_after_traffic')
+    finally:
+        nt.random, nt.time, nt.message_reader = saved
+    return orc.result()
